@@ -37,7 +37,7 @@ def evaluate(d: Path) -> dict:
                f"--deselect tests/test_fakes.py::test_get_result_batches_dict 2>&1 | tail -3")
         res["tests"] = t.stdout.strip().splitlines()[-1] if t.stdout.strip() else "?"
         m = re.search(r"(\d+) passed", res["tests"])
-        res["tests_pass"] = bool(m and int(m.group(1)) == 196 and "failed" not in res["tests"] and "error" not in res["tests"])
+        res["tests_pass"] = bool(m and int(m.group(1)) == 196 and not re.search(r"\d+ (failed|error)", res["tests"]))
         res["demo_with_change"] = sh(f"{PY} {d / 'demo.py'} {wt}", timeout=600).returncode
         sh(f"git -C {wt} checkout -- . && git -C {wt} clean -fdq")
         res["demo_without_change"] = sh(f"{PY} {d / 'demo.py'} {wt}", timeout=600).returncode
